@@ -4,6 +4,7 @@
 mod c04;
 mod c06;
 mod cache;
+mod crash;
 mod dedup;
 mod sess;
 mod shard;
@@ -22,6 +23,14 @@ fn main() {
         std::process::exit(2);
     }
     let stream = args[1].as_str();
+    if stream == "crashchild" {
+        crash::child(&args[2..]);
+        return;
+    }
+    if stream == "crashverify" {
+        crash::verify(&args[2..]);
+        return;
+    }
     let f = std::fs::File::open(&args[2]).expect("case file");
     let out = std::io::stdout();
     let mut out = std::io::BufWriter::new(out.lock());
@@ -45,6 +54,7 @@ fn main() {
             "c18m" => shard::run_c18m(&toks[1..]),
             "dd" => dedup::run(&toks[1..]),
             "cache" => cache::run(&toks[1..]),
+            "crash" => crash::run(&toks[1..]),
             "sess" => sess::run(&toks[1..]),
             "c07" => xorb::run_c07(&toks[1..]),
             "c07prep" => xorb::prep_c07(&toks[1..]),
